@@ -103,6 +103,17 @@ Example C17_truncation_safe_nonvacuous :
     [1700000002000; 1700000003000].
 Proof. exact truncation_example. Qed.
 
+Example C17_retained_in_order_nonvacuous :
+  map i_ts (retained (g_run ex_cfg (g_init 1700000000000) ex_ops)) = [1700000003000; 1700000004000; 1700000004000] /\
+  lenZ (accepted 1700000000000 ex_ops) = 7.
+Proof. exact retained_example. Qed.
+
+Example C17_file_roundtrip_nonvacuous :
+  Forall valid_item [mkItem 1700000001000 [50] [97] 1 2 3 4 5 6 7 8] /\ ~ In 10 [49; 55; 48] /\
+  read_items ([120; 10] ++ enc_lines [mkItem 1700000001000 [50] [97] 1 2 3 4 5 6 7 8] ++ [49; 55; 48]) 2 =
+  [mkItem 1700000001000 [50] [97] 1 2 3 4 5 6 7 8].
+Proof. exact file_roundtrip_example. Qed.
+
 Print Assumptions C17_line_roundtrip.
 Print Assumptions C17_file_roundtrip.
 Print Assumptions C17_file_bound.
